@@ -89,6 +89,15 @@ func (fi *fmtInfo) collect(e *Env, fn *ssa.Function) {
 	sy := e.P.NewSymbolizer(nil)
 	for i, ev := range phi.Edges {
 		pb := phi.Block().Preds[i]
+		dead := false
+		for _, in := range pb.Instrs {
+			if e.P.CallNeverReturns(in) {
+				dead = true // the edge out of a block that ends in a never-returning call is infeasible
+			}
+		}
+		if dead {
+			continue
+		}
 		label, tf := armLabel(pb)
 		if tf != nil {
 			if fi.tagField == nil {
